@@ -867,8 +867,14 @@ def residual_class(code, fn, tree, v):
         return sorted(early)[0]
     if reason == "PopCaptured" and closure_in_try:
         return "unwind_open_upvalue"
-    if reason == "ReturnPending" and jf_depths:
+    jf_in_catch_try = any(nm == "JumpFinally" and bodies_at(q) and max(bodies_at(q), key=lambda r: r["push"])["has_catch"]
+                          for (q, nm, a, b, nx) in ins)
+    if jf_in_catch_try and (kind == "NONUNIQUE" or reason in ("ReturnPending", "ReturnWithHandlers", "HandlerAboveStack") + loop_reasons):
         return "return_in_try_falls_through"
+    if reason == "ReturnPending" and at == "Return" and any(
+            r["fin"] <= pc and any(nm == "JumpFinally" and r["body"] <= q < r["catch"] for (q, nm, a, b, nx) in ins)
+            for r in regs):
+        return "return_in_finally"
     if reason in ("ReturnWithHandlers", "HandlerAboveStack") and any(d >= 2 for _, d in jf_depths):
         return "return_through_nested_try"
     if finally_only:
@@ -1053,3 +1059,129 @@ def shrink_source(src, fails, budget=30):
                 changed = True
                 break
     return "\n".join(lines)
+
+
+# ------------------------------------------------------------------------------------------------
+# limit family: programs sized to sit exactly on each encoding bound
+
+def _first(tree, name, field="a", fn_idx=0, nth=0):
+    ins = listing(tree[fn_idx], tree)
+    hits = [i for i in ins if i[1] == name]
+    if len(hits) <= nth:
+        return None
+    return hits[nth][2] if field == "a" else hits[nth][3]
+
+
+def _stmts(na, nb):
+    return "nil;" * na + "-nil;" * nb          # 2 bytes / 3 bytes each
+
+
+def _expr(na, nb):
+    return ("!" * nb) + "nil" + " == nil" * na   # 2 bytes per '== nil', 1 byte per '!'
+
+
+JUMP_FAMILIES = [
+    # name, builder(na, nb), probe(tree) -> measured operand
+    ("if_then(JumpIfFalse)", lambda a, b: "if true {" + _stmts(a, b) + "}", lambda t: _first(t, "JumpIfFalse")),
+    ("if_else(Jump)", lambda a, b: "if true {} else {" + _stmts(a, b) + "}", lambda t: _first(t, "Jump")),
+    ("and(JumpIfFalse)", lambda a, b: "var x = true && " + _expr(a, b) + ";", lambda t: _first(t, "JumpIfFalse")),
+    ("or(Jump)", lambda a, b: "var x = false || " + _expr(a, b) + ";", lambda t: _first(t, "Jump")),
+    ("while_exit(JumpIfFalse)", lambda a, b: "while false {" + _stmts(a, b) + "}", lambda t: _first(t, "JumpIfFalse")),
+    ("while_back(Loop)", lambda a, b: "while false {" + _stmts(a, b) + "}", lambda t: _first(t, "Loop")),
+    ("for_back(Loop)", lambda a, b: "for i in 0..1 {" + _stmts(a, b) + "}", lambda t: _first(t, "Loop")),
+    ("fn_while_back(Loop)", lambda a, b: "fn f(p) { var l = p; while l {" + _stmts(a, b) + "} return l; }",
+     lambda t: _first(t, "Loop", fn_idx=1)),
+    ("try_body(PushExcHandler.catch)", lambda a, b: "try {" + _stmts(a, b) + "} catch e {}", lambda t: _first(t, "PushExcHandler")),
+    ("catch_block(PushExcHandler.finally)", lambda a, b: "try {} catch e {" + _stmts(a, b) + "}",
+     lambda t: _first(t, "PushExcHandler", "b")),
+    ("try_finally_body(PushExcHandler.catch)", lambda a, b: "try {" + _stmts(a, b) + "} finally {}",
+     lambda t: _first(t, "PushExcHandler")),
+]
+JUMP_SIZES = [65534, 65535, 65536, 65537]
+JUMP_LIMIT = 65535      # what a u16 operand can carry
+
+
+def _names(p, n):
+    return ["%s%d" % (p, i) for i in range(n)]
+
+
+def _captures(n):
+    na = min(n, 200)
+    nb = n - na
+    a, b = _names("a", 200), _names("b", max(nb, 1))
+    used = a[:na] + b[:nb]
+    return ("fn o1() { %s fn o2() { %s fn inner() { return %s; } return inner; } return o2; }" % (
+        "".join("var %s = 1;" % x for x in a), "".join("var %s = 2;" % x for x in b), " + ".join(used) if used else "0"))
+
+
+COUNT_FAMILIES = [
+    # name, limit (largest count the encoding can carry), builder(n), sizes
+    ("call_args", 255, lambda n: "fn f() {} f(%s);" % ", ".join(["nil"] * n)),
+    ("invoke_args", 255, lambda n: "var o = 1; o.m(%s);" % ", ".join(["nil"] * n)),
+    ("vec_elements", 255, lambda n: "while false { var v = [%s]; }" % ", ".join(["nil"] * n)),
+    ("tuple_elements", 255, lambda n: "while false { var t = (%s); }" % ", ".join(["nil"] * n)),
+    ("map_entries", 255, lambda n: "while false { var m = {%s}; }" % ", ".join("%d: nil" % i for i in range(n))),
+    ("interpolation_parts", 255, lambda n: 'while false { var s = "%s"; }' % ("${1}" * n)),
+    ("interpolation_parts_text", 255, lambda n: 'while false { var s = "%s"; }' % ("${1}x" * (n // 2) + ("${1}" if n % 2 else ""))),
+    ("parameters", 255, lambda n: "fn f(%s) { return p0; }" % ", ".join(_names("p", n))),
+    ("lambda_parameters", 255, lambda n: "var f = |%s| p0;" % ", ".join(_names("p", n))),
+    ("method_parameters", 254, lambda n: "class K { fn m(self, %s) { return p0; } }" % ", ".join(_names("p", n))),
+    ("locals", 255, lambda n: "fn f() { %s return l0; }" % "".join("var %s = nil;" % x for x in _names("l", n))),
+    ("block_locals_in_loop", 255, lambda n: "fn f() { while false { %s } }" % "".join("var %s = nil;" % x for x in _names("l", n))),
+    ("captured_variables", 256, _captures),
+]
+COUNT_DELTAS = [0, 1, 2]
+CONST_FAMILY = ("constants", 65536, lambda n: "".join("%d;" % i for i in range(n)), [65535, 65536, 65537])
+
+
+def limit_family(binary, quick=True):
+    """-> (rows, items): rows = table of dicts; items = compiled trees to be verified (label = row key)"""
+    rows, sources = [], []
+    # calibration of the jump families: operand = base + ua*na + ub*nb
+    cal_src = []
+    for name, build, probe in JUMP_FAMILIES:
+        cal_src += [build(10, 0), build(11, 0), build(10, 1)]
+    cal = compile_sources(binary, cal_src)
+    plans = []
+    for k, (name, build, probe) in enumerate(JUMP_FAMILIES):
+        c = cal[3 * k:3 * k + 3]
+        if any(x[0] != "ok" for x in c):
+            rows.append({"family": name, "error": "calibration program did not compile"})
+            continue
+        d0, d1, d2 = [probe(x[1]) for x in c]
+        if None in (d0, d1, d2):
+            rows.append({"family": name, "error": "calibration: instruction not found"})
+            continue
+        ua, ub = d1 - d0, d2 - d0
+        base = d0 - 10 * ua
+        for size in JUMP_SIZES:
+            rest = size - base
+            nb = 0
+            while nb < 4 and (rest - ub * nb) % ua != 0:
+                nb += 1
+            na = (rest - ub * nb) // ua
+            plans.append(("jump", name, JUMP_LIMIT, size, build(na, nb), probe))
+    for name, limit, build in COUNT_FAMILIES:
+        for d in COUNT_DELTAS:
+            plans.append(("count", name, limit, limit + d, build(limit + d), None))
+    name, limit, build, sizes = CONST_FAMILY
+    for n in sizes:
+        plans.append(("count", name, limit, n, build(n), None))
+    res = compile_sources(binary, [p[4] for p in plans], timeout_ms=120000)
+    items = []
+    for (kind, name, limit, size, src, probe), r in zip(plans, res):
+        row = {"family": name, "bound": limit, "size": size, "expected_compile": "ok" if size <= limit else "err",
+               "compile": r[0], "verifier": "-", "src_len": len(src)}
+        if r[0] == "err":
+            row["message"] = (r[1][0] if r[1] else "")[:120]
+        elif r[0] == "crash":
+            row["message"] = str(r[1])[:120]
+        else:
+            tree = r[1]
+            if probe:
+                row["operand"] = probe(tree)
+            row["line_table_ok"] = line_table_ok(tree)
+            it = Item("limit:%s:%d" % (name, size), src if len(src) < 4000 else None, tree, "limit", row)
+            items.append(it)
+        rows.append(row)
+    return rows, items, {(p[1], p[3]): p[4] for p in plans}
